@@ -348,3 +348,130 @@ Proof.
   - destruct (decode_obj ms s (a + 8) w) as [t0 rs0] eqn:ED. inversion H; subst.
     rewrite (decode_obj_stable _ _ _ _ _ _ _ G ED S). reflexivity.
 Qed.
+
+(* ------------------------------------------------------------------ objects *)
+(* the handles constructors return are the objects of the table (composite lists are not part
+   of this sub-language yet) *)
+Definition obj_bytes (h : Ptr) : Z :=
+  match p_kind h with KStruct => totalSize (p_size h) | KList => list_allocSize h | KIface => 0 end.
+Definition obj_reg (h : Ptr) : region := mkReg (p_seg h) (p_off h) (padToWord (obj_bytes h)).
+
+Definition et_of (h : Ptr) : Z :=
+  if p_bit h then 1 else if PointerCount (p_size h) =? 1 then 6
+  else let d := DataSize (p_size h) in
+       if d =? 0 then 0 else if d =? 1 then 2 else if d =? 2 then 3 else if d =? 4 then 4 else 5.
+
+Definition tgt_of (h : Ptr) : target :=
+  match p_kind h with
+  | KStruct => GStruct (p_seg h) (p_off h) (DataSize (p_size h) / 8) (PointerCount (p_size h))
+  | KList => GList (p_seg h) (p_off h) (et_of h) (p_len h)
+  | KIface => GNull
+  end.
+
+(* the shapes constructors produce *)
+Definition shape_ok (h : Ptr) : Prop :=
+  match p_kind h with
+  | KStruct => os_wf (p_size h)
+  | KList => p_comp h = false /\ 0 <= p_len h < 536870912 /\
+             (p_bit h = true /\ p_size h = mkOS 0 0 \/
+              p_bit h = false /\ (p_size h = mkOS 0 1 \/ exists d, p_size h = mkOS d 0 /\ (d = 0 \/ d = 1 \/ d = 2 \/ d = 4 \/ d = 8)))
+  | KIface => False
+  end.
+
+Definition good (ms : segs) (h : Ptr) : Prop :=
+  shape_ok h /\ 0 <= p_seg h < 4294967296 /\
+  in_seg ms (p_seg h) (p_off h) (r_size (obj_reg h)) = true /\ p_off h <= 4294967288.
+
+(* the pointer word writePtr places for an object *)
+Definition raw_of (h : Ptr) : res Z :=
+  match p_kind h with
+  | KStruct => of_opt_panic (rawStructPointer 0 (p_size h))
+  | KList => list_raw h
+  | KIface => Err
+  end.
+
+Lemma list_bytes_eq n bits : 0 <= n < 536870912 -> (bits = 0 \/ bits = 1 \/ bits = 8 \/ bits = 16 \/ bits = 32 \/ bits = 64) ->
+  (n * bits + 63) / 64 * 8 = ((n * bits + 7) / 8 + 7) / 8 * 8.
+Proof. intros Hn [->|[->|[->|[->|[->| ->]]]]]; lia. Qed.
+
+Lemma times_small sz n : 0 <= sz <= 8 -> 0 <= n < 536870912 -> times sz n = Some (sz * n).
+Proof.
+  intros Hs Hn. unfold times. cbv zeta.
+  destruct ((sz * n >? maxSegmentSize) || (sz * n <? 0)) eqn:E; [unfold maxSegmentSize in E; nia|reflexivity].
+Qed.
+
+Lemma list_alloc_plain h d pc :
+  p_valid h = true -> p_comp h = false -> p_bit h = false -> p_size h = mkOS d pc ->
+  0 <= d <= 8 -> (pc = 0 \/ pc = 1 /\ d = 0) -> 0 <= p_len h < 536870912 ->
+  list_allocSize h = (d + 8 * pc) * p_len h.
+Proof.
+  intros Hv Hc Hb Hs Hd Hp Hn. unfold list_allocSize. rewrite Hv, Hb, Hc, Hs. cbn [negb].
+  assert (T : totalSize (mkOS d pc) = d + 8 * pc).
+  { unfold totalSize, pointerSize, u32. cbn [DataSize PointerCount]. lia. }
+  rewrite T. rewrite times_small by lia. reflexivity.
+Qed.
+
+Lemma obj_decode (ms : segs) h :
+  p_valid h = true -> good ms h -> (p_kind h = KStruct -> os_isZero (p_size h) = false) ->
+  exists raw, raw_of h = Ok raw /\ raw_word raw /\
+    decode_obj ms (p_seg h) (p_off h) raw = (tgt_of h, [obj_reg h]).
+Proof.
+  intros Hv (Hs & Hseg & Hin & Hoff) Hnz. unfold raw_of, tgt_of, obj_reg, obj_bytes, shape_ok in *.
+  destruct (p_kind h) eqn:EK.
+  - (* struct *)
+    specialize (Hnz eq_refl).
+    destruct (fields_struct (p_size h) Hs) as (raw & E & R0 & R1 & R2 & R3 & R4 & R5).
+    exists raw. rewrite E. cbn [of_opt_panic]. split; [reflexivity|].
+    destruct Hs as (Hd & Hm & Hp).
+    assert (TS : totalSize (p_size h) = DataSize (p_size h) + 8 * PointerCount (p_size h)).
+    { unfold totalSize, pointerSize, u32. lia. }
+    assert (PW : padToWord (totalSize (p_size h)) = 8 * (DataSize (p_size h) / 8 + PointerCount (p_size h))).
+    { rewrite TS. unfold padToWord, u32. lia. }
+    split.
+    + unfold raw_word. split; [exact R0|]. split; [lia|]. split; [exact R4|].
+      left. rewrite R5. unfold os_isZero in Hnz. lia.
+    + unfold decode_obj. cbv zeta. unfold f_A. rewrite R1. change (0 =? 0) with true. cbv iota.
+      rewrite R4, R2, R3. replace (p_off h + 8 * 0) with (p_off h) by lia.
+      cbn [r_size] in Hin. rewrite PW in Hin. rewrite Hin. rewrite PW. reflexivity.
+  - (* list *)
+    destruct Hs as (Hc & Hn & Hk).
+    assert (LR : exists et bits, list_raw h = Ok (rawListPointer 0 et (p_len h)) /\ et = et_of h /\ 0 <= et < 7 /\
+                   et_bits et = bits /\
+                   padToWord (list_allocSize h) = (p_len h * bits + 63) / 64 * 8).
+    { destruct Hk as [[Hb Hsz]|[Hb Hsz]].
+      - exists 1, 1. unfold list_raw, list_allocSize, et_of. rewrite Hv, Hc, Hb. cbn [negb].
+        repeat split; try lia. unfold bitListSize, padToWord, u32. lia.
+      - assert (HA : forall d pc, p_size h = mkOS d pc -> 0 <= d <= 8 -> (pc = 0 \/ pc = 1 /\ d = 0) ->
+                  padToWord (list_allocSize h) = (p_len h * (8 * (d + 8 * pc)) + 63) / 64 * 8).
+        { intros d pc E1 E2 E3. rewrite (list_alloc_plain h d pc) by auto.
+          assert (K : 0 <= (d + 8 * pc) * p_len h <= 4294967288) by nia.
+          replace (p_len h * (8 * (d + 8 * pc))) with (8 * ((d + 8 * pc) * p_len h)) by ring.
+          set (k := (d + 8 * pc) * p_len h) in *. clearbody k. unfold padToWord, u32. lia. }
+        destruct Hsz as [Hsz|(d & Hsz & Hd)].
+        + exists 6, 64. unfold list_raw, et_of. rewrite Hv, Hc, Hb, Hsz. cbn [negb PointerCount DataSize].
+          change ((1 =? 1) && (0 =? 0)) with true. change (1 =? 1) with true. cbv iota.
+          repeat split; try lia. rewrite (HA 0 1) by (auto; lia). cbn. lia.
+        + unfold list_raw, et_of. rewrite Hv, Hc, Hb, Hsz. cbn [negb PointerCount DataSize].
+          change (0 =? 1) with false. rewrite Bool.andb_false_l. change (0 =? 0) with true. cbn [negb]. cbv iota zeta.
+          destruct Hd as [->|[->|[->|[->| ->]]]].
+          * exists 0, 0. change (0 =? 0) with true. cbv iota. repeat split; try lia.
+            rewrite (HA 0 0) by (auto; lia). cbn. lia.
+          * exists 2, 8. change (1 =? 0) with false. change (1 =? 1) with true. cbv iota. repeat split; try lia.
+            rewrite (HA 1 0) by (auto; lia). cbn. lia.
+          * exists 3, 16. change (2 =? 0) with false. change (2 =? 1) with false. change (2 =? 2) with true. cbv iota. repeat split; try lia.
+            rewrite (HA 2 0) by (auto; lia). cbn. lia.
+          * exists 4, 32. change (4 =? 0) with false. change (4 =? 1) with false. change (4 =? 2) with false. change (4 =? 4) with true. cbv iota. repeat split; try lia.
+            rewrite (HA 4 0) by (auto; lia). cbn. lia.
+          * exists 5, 64. change (8 =? 0) with false. change (8 =? 1) with false. change (8 =? 2) with false. change (8 =? 4) with false. change (8 =? 8) with true. cbv iota. repeat split; try lia.
+            rewrite (HA 8 0) by (auto; lia). cbn. lia. }
+    destruct LR as (et & bits & L1 & L2 & L3 & L4 & L5).
+    exists (rawListPointer 0 et (p_len h)). split; [exact L1|].
+    destruct (fields_list et (p_len h) ltac:(lia) Hn) as (F0 & F1 & F2 & F3 & F4). cbv zeta in *.
+    set (raw := rawListPointer 0 et (p_len h)) in *. split.
+    + unfold raw_word. split; [exact F0|]. split; [lia|]. split; [exact F4|]. right. lia.
+    + unfold decode_obj. cbv zeta. unfold f_A. rewrite F1. change (1 =? 0) with false. cbv iota.
+      rewrite F2, F3, F4. destruct (et <? 7) eqn:E7; [|lia]. rewrite L4.
+      replace (p_off h + 8 * 0) with (p_off h) by lia.
+      cbn [r_size] in Hin. rewrite L5 in Hin. rewrite Hin. rewrite L5, L2. reflexivity.
+  - destruct Hs.
+Qed.
